@@ -10,7 +10,7 @@ MANIFEST = {
     "note": "Trusted: Lean kernel; model (differential tie + kernels); the reading of NDR64 (8-byte conformance, 8-aligned towers) in the harness's independent encoder; memory is bounded by the same argument as time (one list cell per decoded floor), not measured",
     "technique": "Lean 4 proof (decision logic + decreasing-measure work bound, ∀ bytes) + kernel extraction + reference-encoder / adversarial correspondence under a step budget",
 }
-THEOREMS_TODO = ["DpapiNg.C18.port_is_first_tcp", "DpapiNg.C18.firstTcp_spec", "DpapiNg.C18.towersUnpack_bounded", "DpapiNg.C18.floorsUnpack_bounded"]
+THEOREMS = ["DpapiNg.C18.port_is_first_tcp", "DpapiNg.C18.firstTcp_spec", "DpapiNg.C18.firstTcp_none", "DpapiNg.C18.towersUnpack_len", "DpapiNg.C18.towersUnpack_error_mono", "DpapiNg.C18.towersUnpack_bounded", "DpapiNg.C18.floorsUnpack_len", "DpapiNg.C18.tower_padding_aligned"]
 RULE = ("reference-encoded replies: 0..6 towers, tower lengths covering every residue mod 8, unknown floor protocols, TCP floor in every position / absent, status codes {0, non-zero}, trailing "
         "alignment padding 0..7; adversarial: tower counts and floor counts up to 2^64-1, truncations at every offset, random bytes; line-event budget 40·len+4000; distinct by op line")
 ASSUMPTIONS = ["well-formed = the NDR64 encoding of ept_map's [out] parameters as produced by the independent encoder"]
@@ -135,4 +135,3 @@ def replay(ctx, payload):
     out = budgeted(lambda: cl._process_ept_map_result(resp), str, len(stub))
     print("port →", out)
     return "StepBudgetExceeded" not in out
-THEOREMS = []
